@@ -91,4 +91,70 @@ inductive Legal : Abs → List Op → Prop
   | nil {a : Abs} : Legal a []
   | cons {a a' : Abs} {op : Op} {ops : List Op} : Step a op a' → Legal a' ops → Legal a (op :: ops)
 
+/-! ### Event level (nOS-V `VT?`/`VY?`, Nanos6 `6T?`/`6Y?`)
+
+  The life-cycle above, plus what the event encoding and the subsystem view add:
+  which body an event names, which flags a created task has, task id 0 cannot
+  be shown, and the thread's subsystem stack receives "running body" when a
+  body starts and gives it back when the body ends (so a body cannot start if
+  the stack refuses the push, nor end if something else is on top). -/
+
+structure EAbs where
+  a : Abs
+  ss : Nat → List Int
+
+def EAbs.init : EAbs := ⟨Abs.init, fun _ => []⟩
+
+/-- The body named by a state event: nOS-V parallel tasks name it in the
+    payload (non-zero), other nOS-V tasks must say 0 and have the single body 1;
+    Nanos6 tasks have the single body 1. -/
+def namedBody (m : Model) (f : TaskFlags) (bp : Nat) : Option Nat :=
+  match m with
+  | .nanos6 => some 1
+  | .nosv => if f.parallel then (if bp = 0 then none else some bp) else (if bp = 0 then some 1 else none)
+
+/-- The subsystem channel accepts pushing `v`: room left, and no immediate
+    repetition unless the model allows duplicates on that channel. -/
+def pushOk (m : Model) (st : List Int) (v : Int) : Prop :=
+  (m.cfg.dupSs = true ∨ st.head? ≠ some v) ∧ st.length < Ovni.Generated.maxChanStack
+
+inductive EStep (m : Model) : EAbs → Ev → EAbs → Prop
+  | typeCreate {e : EAbs} {ty h : Nat} {a' : Abs} :
+      Step e.a (.typeCreate ty (gidOf h)) a' →
+      EStep m e (.typeCreate ty h true) ⟨a', e.ss⟩
+  | taskCreate {e : EAbs} {par : Bool} {t ty : Nat} {a' : Abs} :
+      ¬(m = .nanos6 ∧ par = true) →
+      Step e.a (.create ty t (createFlags m par)) a' →
+      EStep m e (.taskCreate par t ty) ⟨a', e.ss⟩
+  /-- the old Nanos6 `6TC` is ignored -/
+  | oldCreate {e : EAbs} {t ty : Nat} :
+      m = .nanos6 → EStep m e (.taskCreate true t ty) e
+  | exec {e : EAbs} {th t bp b : Nat} {f : TaskFlags} {a' : Abs} :
+      e.a.flags t = some f → namedBody m f bp = some b →
+      Step e.a (.exec th t b) a' → t ≠ 0 → pushOk m (e.ss th) m.cfg.stTaskBody →
+      EStep m e (.task th .x t bp) ⟨a', updFn e.ss th (m.cfg.stTaskBody :: e.ss th)⟩
+  | end_ {e : EAbs} {th t bp b : Nat} {f : TaskFlags} {a' : Abs} {rest : List Int} :
+      e.a.flags t = some f → namedBody m f bp = some b →
+      Step e.a (.end_ th t b) a' → e.ss th = m.cfg.stTaskBody :: rest →
+      EStep m e (.task th .e t bp) ⟨a', updFn e.ss th rest⟩
+  | pause {e : EAbs} {th t bp b : Nat} {f : TaskFlags} {a' : Abs} :
+      e.a.flags t = some f → namedBody m f bp = some b →
+      Step e.a (.pause th t b) a' →
+      EStep m e (.task th .p t bp) ⟨a', e.ss⟩
+  | resume {e : EAbs} {th t bp b : Nat} {f : TaskFlags} {a' : Abs} :
+      e.a.flags t = some f → namedBody m f bp = some b →
+      Step e.a (.resume th t b) a' →
+      EStep m e (.task th .r t bp) ⟨a', e.ss⟩
+  | ssPush {e : EAbs} {th : Nat} {v : Int} :
+      pushOk m (e.ss th) v →
+      EStep m e (.ssPush th v) ⟨e.a, updFn e.ss th (v :: e.ss th)⟩
+  | ssPop {e : EAbs} {th : Nat} {v : Int} {rest : List Int} :
+      e.ss th = v :: rest →
+      EStep m e (.ssPop th v) ⟨e.a, updFn e.ss th rest⟩
+
+inductive ELegal (m : Model) : EAbs → List Ev → Prop
+  | nil {e : EAbs} : ELegal m e []
+  | cons {e e' : EAbs} {ev : Ev} {evs : List Ev} :
+      EStep m e ev e' → ELegal m e' evs → ELegal m e (ev :: evs)
+
 end Ovni.Task.Spec
